@@ -49,6 +49,8 @@ def run(cx):
         if res.get("k") != "ok":
             cx.notes.append("run %s: driver result %s" % (r_["id"], str(res)[:150]))
             continue
+        if res.get("seq_errors"):
+            raise vlib.Inconclusive("a driver program fails when evaluated alone: %s" % json.dumps(res["seq_errors"][:2])[:300])
         evals += res["evaluations"]
         nevents += len(res["events"])
         traces.append({"id": r_["id"], "events": res["events"]})
